@@ -1028,7 +1028,7 @@ pub fn scan_tree() -> Tree {
 /// what drives the harnesses: the text of c20.rs (and of the family modules), comments stripped
 fn driver_text() -> String {
     let mut s = String::new();
-    for src in [include_str!("c20.rs"), include_str!("c20_more.rs")] {
+    for src in [include_str!("c20.rs"), include_str!("c20_more.rs"), include_str!("c20_mn.rs")] {
         s.push_str(&code_only(src));
         s.push('\n');
     }
@@ -1082,7 +1082,7 @@ pub const HARNESSES: &[(&str, &str, &str, &str)] = &[
     ("HashDSTHarness", "M", "hash", ""),
     ("SortedSetDSTHarness", "M", "sorted-set", ""),
     ("TransactionDSTHarness", "M", "transaction", ""),
-    ("MultiNodeSimulation", "E", "multi-node", "+ multi-node-gen (generated scenarios)"),
+    ("MultiNodeSimulation", "M", "multi-node", "+ multi-node-gen (generated scenarios), partition (run_partition_test): scripts of API calls predicted by Model/SimCluster (buckets / ring owners probed from the real code); the API scenarios of family multi-node-api stay explored"),
     ("StreamingDSTHarness", "E", "streaming", ""),
     ("StreamingWorkload", "M", "streaming-workload", "operation sequence predicted and compared with the history the real harness records (workload_ops_independent_of_store)"),
     ("CompactionDSTHarness", "E", "compaction", ""),
